@@ -1,2 +1,45 @@
-(* C01/Props.v -- placeholder, theorems follow *)
-From Coq Require Import List.
+(* C01/Props.v -- property theorems only; each is closed by [exact] of a lemma
+   from C01/Proofs*.v and followed by Print Assumptions.
+
+   The model [lincomb_impl] (C01/Model.v) is the interpreter of the decision
+   tree, the fallback bodies, the direct expression, the thresholds and the
+   regime rule REGENERATED from odl/space/npy_tensors.py:_lincomb_impl into
+   Gen/Lincomb.v on every run.  A store maps object identities to array
+   contents; `x1 is x2` is equality of identities. *)
+From Coq Require Import ZArith Reals List Bool.
+From Verif Require Import Base.Num Base.Vec C01.Syntax Gen.Lincomb C01.Carriers C01.Model C01.Laws C01.Proofs.
+Import ListNotations.
+
+(* T1  out = a*x1 + b*x2 entry-wise, for EVERY carrier satisfying the field laws
+   (reals: float dtypes; complex numbers: complex dtypes), every size (hence every
+   regime: direct / fallback / BLAS), both flags, all scalars a b (so 0, 1, -1,
+   a+b = 0 and generic ones), every store, and ALL identities i1 i2 io -- the five
+   aliasing patterns are the instances i1=i2, io=i1, io=i2.  The result is computed
+   from the INITIAL contents of x1 and x2; every buffer other than out is unchanged;
+   the recursion of _lincomb_impl terminates (never OutOfFuel). *)
+Theorem lincomb_correct :
+  forall (T : Type) (N : Num T) (F : NumField T)
+         (floating blas_ok : bool) (a b : T) (i1 i2 io : nat) (s : store T),
+  length (s i1) = length (s i2) -> length (s io) = length (s i1) ->
+  exists s', lincomb_impl (fun u => u) floating blas_ok a i1 b i2 io s = Ok s'
+          /\ s' io = vlin a (s i1) b (s i2)
+          /\ forall j, j <> io -> s' j = s j.
+Proof. exact @lincomb_impl_correct. Qed.
+Print Assumptions lincomb_correct.
+
+(* the hypotheses are satisfiable: the reals and the complex numbers are instances *)
+Example field_instances : NumField R * NumField (R * R).
+Proof. exact (NumField_R, NumField_C). Qed.
+
+(* T1  non-floating (integer) dtypes: at every size the direct expression is used; the
+   stored result is the conversion [cast] of a*x1 + b*x2 -- no algebraic law is needed,
+   so this holds at every carrier and for every conversion. *)
+Theorem lincomb_nonfloating_correct :
+  forall (T : Type) (N : Num T) (cast : T -> T)
+         (blas_ok : bool) (a b : T) (i1 i2 io : nat) (s : store T),
+  length (s i1) = length (s i2) ->
+  exists s', lincomb_impl cast false blas_ok a i1 b i2 io s = Ok s'
+          /\ s' io = map cast (vlin a (s i1) b (s i2))
+          /\ forall j, j <> io -> s' j = s j.
+Proof. exact @lincomb_impl_nonfloating. Qed.
+Print Assumptions lincomb_nonfloating_correct.
